@@ -307,9 +307,19 @@ func init() {
 			}
 		})
 		defer verifhook.Set(nil)
-		exec := func() (error, bool) {
+		// profile1=cpu|mem: only the first of two executions on the same F1 instance (twice=1) is profiled
+		firstArgs := args
+		if pr, ok := p["profile1"]; ok {
+			d, err := os.MkdirTemp("", "f1verif-prof1")
+			if err != nil {
+				return "harness-tempdir"
+			}
+			defer os.RemoveAll(d)
+			firstArgs = append([]string{"--" + pr + "profile", filepath.Join(d, pr+".prof")}, args...)
+		}
+		execWith := func(a []string) (error, bool) {
 			done := make(chan error, 1)
-			go func() { done <- app.ExecuteWithArgs(args) }()
+			go func() { done <- app.ExecuteWithArgs(a) }()
 			select {
 			case err := <-done:
 				return err, true
@@ -317,8 +327,9 @@ func init() {
 				return nil, false
 			}
 		}
+		exec := func() (error, bool) { return execWith(args) }
 		if p["twice"] == "1" { // a first, unobserved execution on the same F1 instance
-			if _, ok := exec(); !ok {
+			if _, ok := execWith(firstArgs); !ok {
 				return "never-returned"
 			}
 			setups.Store(0)
